@@ -28,6 +28,18 @@ def run(chk):
             return "a valid tree could not be written: %r" % (r,)
         text, seen = r[1], r[2]
         d = c["desc"]
+        if len(r) > 4 and r[4] is not None and c["main_variant"] is None:
+            uid, paths, g2 = r[4]
+            if not isinstance(g2, dict):
+                return "a nested variant (%r) requested as main variant: %r" % (uid, g2)
+            exp = {"variant": uid}
+            for key, fld, src in [("packagedir", "packages", "source_packages"), ("repository", "repository", "source_repository")]:
+                e = paths.get(fld)
+                if e is None and d["tree"]["arch"] == "src":
+                    e = paths.get(src)
+                exp[key] = e
+            if g2 != exp:
+                return "main variant %r (nested): [general] has %r, that variant's facts are %r" % (uid, g2, exp)
         if len(r) > 3 and r[3] != sorted(d["variants"])[0]:
             return ("the tree written with main variant %r, loaded and written again without one, has [general] variant = %r; "
                     "the alphabetically first top-level variant is %r" % (c["main_variant"], r[3], sorted(d["variants"])[0]))
